@@ -171,7 +171,7 @@ def gen_index(rng, m, faulty):
 def generate(rng):
     faulty = rng.random() < 0.35
     nreg = rng.choice([1, 2, 3])
-    cfg = {"faulty": faulty, "nreg": nreg}
+    cfg = {"faulty": faulty, "nreg": nreg, "observe": rng.choice(["all", "all", "sparse"])}
     ops = []
     ms = [None] * nreg
     nops = rng.randint(3, 30)
@@ -650,8 +650,15 @@ class Sim:
             self.res.features.add((op["op"], (op.get("idx") or {}).get("t"), out))
             self.log.add({"i": i, "op": op["op"], "out": out,
                           "state": [None if m is None else [m.n, len(m.b)] for m in self.ms]})
-            if out != "skip":
+            # Observing a list can repair lazily maintained internal state and so hide a defect that needs two
+            # operations in a row without a query in between: in "sparse" runs the views are compared only every fourth
+            # step and after the last one (a disagreement is then reported a few steps late, but it is reported)
+            sparse = self.spec["cfg"].get("observe") == "sparse"
+            last = i == len(self.spec["ops"]) - 1
+            if out != "skip" and (not sparse or last or i % 4 == 3):
                 self.check_all(op["op"])
+            elif out != "skip":
+                self.res.stats["probe:step-without-observation"] += 1
 
     def op_big(self, op):
         """A bond list over a very large atom count (ribosomes, capsids) with a handful of bonds: the cheap views only
